@@ -95,6 +95,13 @@ class Rotation(Quaternion):
         self._data[..., -1] = value
 
     @property
+    def unit(self) -> Rotation:
+        """Return the unit rotations."""
+        R = super().unit
+        R.improper = self.improper
+        return R
+
+    @property
     def antipodal(self) -> Rotation:
         """Return the rotation and its antipodal."""
         R = self.__class__(np.stack([self.data, -self.data]))
